@@ -116,6 +116,21 @@ SKey(x) == x.arr * (NS + 1) + x.st
 PU == 1
 PilotEnergy(p, s) == (p * Volt[s] * T) \div PU
 
+\* ---- what a station advertises to schedulers (C05 "true infrastructure description") ----
+\* The EVSE classes a replay may put on a station, in the units of EVSEDefs.tla (1e-4 A), and what
+\* each of them tells a scheduler; MenuAcceptedBy(k) decides the scope assumption "every pilot of the
+\* menu is accepted by the EVSE" for class k, so the harness only uses classes for which it holds.
+ED == INSTANCE EVSEDefs
+KindDefs == [cont     |-> [cls |-> "cont", min |-> 0, max |-> 320000],
+             deadband |-> [cls |-> "deadband", end |-> 60000, max |-> 320000],
+             finite   |-> [cls |-> "finite", levels |-> <<320000, 80000, 0, 160000, 240000>>],
+             finiteB  |-> [cls |-> "finite", levels |-> <<160000, 320000>>],
+             finiteC  |-> [cls |-> "finite", levels |-> <<60000, 120000, 180000, 240000, 300000>>]]
+KindTab == [k \in DOMAIN KindDefs |-> ED!Describe(KindDefs[k])]
+MenuPilots(menu) == UNION {UNION {{menu[m].rows[s][j] : j \in DOMAIN menu[m].rows[s]} : s \in DOMAIN menu[m].rows}
+                           : m \in DOMAIN menu}
+MenuAcceptedBy(k, menu) == \A p \in MenuPilots(menu) : (p * 10000) % PU = 0 /\ ED!Valid(KindDefs[k], (p * 10000) \div PU)
+
 \* The ideal battery law (Battery.charge): energy accepted in one period.
 Charge(i, p, s) ==
     Min2(Min2(PilotEnergy(p, s), sess[i].pw * T), sess[i].cap - chg[i])
@@ -161,7 +176,9 @@ Start(R, mr) ==
                 \cup {[kind |-> "Recompute", ts |-> r, id |-> 100 + r] : r \in R}
     /\ pc' = "Loop"
     /\ hist' = Log([a |-> "start", sess |-> sess, recomp |-> R, volt |-> Volt, T |-> T,
-                    mr |-> mr, ns |-> NS, vl |-> VL, menu |-> Menu, pu |-> PU])
+                    mr |-> mr, ns |-> NS, vl |-> VL, menu |-> Menu, pu |-> PU,
+                    kindtab |-> KindTab,
+                    accepts |-> [k \in DOMAIN KindDefs |-> MenuAcceptedBy(k, Menu)]])
     /\ UNCHANGED <<sess, t, resolve, lastUpd, batch, occ, evsePilot, pilots, dE, evE, chg,
                    lastE, peakN, evHist, seen, schedHist, sigma, ghost>>
 
